@@ -72,6 +72,12 @@ def configs(tier, seed):
                      slow_ops=['load-step'], d=3, dd=1, menu=MENU))
     cfgs.append(dict(backend='redis', backoff='r10', n=1, prestored=2, prestored_due=10.0, keep_announcements=False, script=[E0],
                      redis_yields=['hget'], d=3, dd=1, menu=MENU))
+    # restart over several due messages with a bounded store pool: the scheduler blocks in the middle of a dispatch pass
+    # while retry bookkeeping of earlier messages re-enters the timetable
+    cfgs.append(dict(backend='disk', backoff='r0x2', n=1, messages=0, prestored=4, prestored_due=0.0, store_pool=1, slow_ops=['load-step', 'get'],
+                     d=d - 1, dd=1, menu=MENU, max_steps=2000))
+    cfgs.append(dict(backend='dict', backoff='r0x2', n=1, messages=0, prestored=3, prestored_due=5.0, store_pool=1, relay_pool=1, slow_ops=['get'],
+                     script=[F], d=d, dd=1, menu=MENU, max_steps=2000))
     # enqueue() blocked on a saturated relay pool while the storage announces the new message
     cfgs.append(dict(backend='dict', backoff='r10', n=1, harness_wait=True, relay_pool=1, script=[E0, E1, ['announce', 1], ['announce', 0]], d=d, dd=2, menu=MENU))
     cfgs.append(dict(backend='redis', backoff='r10', n=1, relay_pool=1, script=[E0, E1], d=d, dd=2, menu=MENU))
